@@ -171,14 +171,14 @@ CLAIMS = {
         "complement have the same representative, the trivial-split test is symmetric in the two sides, the stored side depends only on the set of leaf names "
         "below the branch (transfer principle partitions_congr); Spec-level invariance theorems for child reordering, unary nodes and two- vs three-child "
         "roots. Tied to the crate by comparing get_partitions with the model on every shape up to a bound crossed with EVERY permutation of the leaf names, "
-        "block-boundary leaf counts and random trees in three arena layouts; oracles on the real code: brute-force split enumeration, four metamorphic invariances.",
+        "block-boundary leaf counts and random trees in three arena layouts; oracles on the real code: brute-force split enumeration, four metamorphic invariances. Also proved ON THE EXECUTABLE FUNCTIONS: the reported set (as a set; the list order may change) is unchanged by any reordering of children anywhere in the tree, by inserting or removing one-child nodes incl. a one-child root, by drawing the root with two or with three-or-more children, and is transported by any injective renaming of the taxa although every bit position changes (read back as name sets); arena bridges: ladderize, compress (any outcome) and rescale keep the bipartitions of the arena's tree.",
    note=NOTE + EXACT, technique="Lean 4 proofs about the bitmask partition model + differential execution over all name permutations", ref="5 C05"),
  "C06": dict(
    text="Kernel-checked theorems on the model of robinson_foulds / robinson_foulds_norm / compare_topologies for all trees: RF is the symmetric-difference "
         "count of the two split sets or that count plus two, the latter only when both roots have two children and the root split sets differ; equals the count "
         "whenever a root is not a two-child root; symmetric; zero for identical split sets; equal to the report's value; normalised value is the quotient by the "
         "total and the count never exceeds the total; different leaf indices are rejected. Tied to the crate on every ordered pair of leaf-labelled shapes up to a "
-        "bound, random pairs and pairs with different leaf sets; oracles: symmetry, renaming, reordering, report agreement, brute-force count, rejection. Also on the real code: the same objects compared again after an edit and the documented reset (leaf names swapped; growth below an internal node after distance matrices and comparisons), look-alike labels (quoted / case / suffix variants are distinct taxa), root not in slot 0.",
+        "bound, random pairs and pairs with different leaf sets; oracles: symmetry, renaming, reordering, report agreement, brute-force count, rejection. Also on the real code: the same objects compared again after an edit and the documented reset (leaf names swapped; growth below an internal node after distance matrices and comparisons), look-alike labels (quoted / case / suffix variants are distinct taxa), root not in slot 0. Also proved on the executable functions: RF = 0 between a tree and any child-reordering, unary variant or root-style variant of itself; RF (value, the +2 correction, the rejection, the normalised value, the report) is unchanged by reordering either tree and by any consistent injective renaming of both trees, without hypothesis.",
    note=NOTE + EXACT + "rf_norm with zero splits is the IEEE quotient 0/0 (NaN), pinned by the correspondence.", technique="Lean 4 proofs about the RF model + exhaustive ordered-pair differential execution", ref="5 C06"),
  "C07": dict(
    text="Kernel-checked theorems on the model of weighted_robinson_foulds / khuner_felsenstein (squared) / compare_topologies / compare_branch_lengths: both "
@@ -186,7 +186,7 @@ CLAIMS = {
         "one split with summed length and a missing length poisons the sum; a missing length yields MissingBranchLengths from all three entry points; the report "
         "carries exactly these values; common rescaling by k multiplies wRF by |k| and KF squared by k squared; the branch listing is exactly only-first / only-second / "
         "common with those lengths. Tied to the crate on exhaustive and random pairs with exact dyadic lengths (exact equality, bit-equal sqrt); oracles: brute-force "
-        "sums, symmetry, scaling, reordering, report agreement, missing-length error. Symmetry of both sums (for split maps without repeated splits, which the partition map guarantees) is a theorem. Also on the real code: common rescaling by 2^-70, 2^-300, 2^200 compared EXACTLY (scaling by a power of two is exact, sqrt correctly rounded), the same objects after rescale + reset, look-alike labels.",
+        "sums, symmetry, scaling, reordering, report agreement, missing-length error. Symmetry of both sums (for split maps without repeated splits, which the partition map guarantees) is a theorem. Also on the real code: common rescaling by 2^-70, 2^-300, 2^200 compared EXACTLY (scaling by a power of two is exact, sqrt correctly rounded), the same objects after rescale + reset, look-alike labels. Also proved on the executable functions: both distances are 0 between a tree and any reordering of itself (the accumulated length of a split does not depend on the order of its inducing branches), unchanged by reordering either tree, scale by |k| resp. k^2 under rescale k of both, and are unchanged by a consistent renaming of two trees on the same leaf set (the hypothesis is necessary: kernel-checked counterexample on different leaf sets, which are outside the property's domain).",
    note=NOTE + EXACT, technique="Lean 4 proofs about the weighted-distance model + exact differential execution on dyadic lengths", ref="5 C07"),
  "C01": dict(
    text="Kernel-checked theorem, by structural induction over all trees and all codecs satisfying three laws, that parsing the written form "
